@@ -259,7 +259,9 @@ def gen_init(rng):
     regions = {}
     for k in refcodec.REGIONS:
         regions[k] = 'empty' if mode == 'empty' else rng.choice(
-            ['zero', 'empty'] + [rng.randint(1, 10**9)] * 4)
+            ['zero', 'empty', {'$fill': rng.choice([0xff, 0x80, 0x7f, 0x0f,
+                                                    0xf0, 0x40, 1])}] +
+            [rng.randint(1, 10**9)] * 4)
     init = {'mode': mode, 'regions': regions,
             'version': rng.choice([8, 16, 33]),
             'bystander': rng.choice(['fresh', 'fresh', 'clone'])}
